@@ -1,6 +1,7 @@
 import Heathcliff.Proofs.C07S
 import Heathcliff.Proofs.C07L
 import Heathcliff.Proofs.GenScalingSpec
+import Heathcliff.Proofs.C07F
 
 /- Property theorems only (statements verbatim; proofs are the helper lemmas of Heathcliff/Proofs). -/
 namespace HC.C07
@@ -89,5 +90,24 @@ theorem gen_multiply_add_plain_spec : type_of% @HC.gen_multiply_add_plain_spec :
 
 /-- … and it is the hand model `multiplyAddPlain` on the flat buffer (= `HC.C01.gen_multiply_add_plain_eq`) -/
 theorem gen_multiply_add_plain_eq : type_of% @HC.gz_multiply_add_plain_eq := @HC.gz_multiply_add_plain_eq
+
+/-! ### fresh budgets meet the worst-case bound (the clause "at least the budget implied by the deterministic bounds") -/
+
+/-- BFV: every phase coefficient is Δ(m_c) + v_c (mod Q) with |v_c| ≤ B ⇒ budget ≥ bits(Q) − bits(t·(B+1)) − 1: the bound the
+    `fresh_budget` oracle of the driver enforces with B = 21(2N+1) + N -/
+theorem fresh_budget_bfv {Q t B : Nat} (hQ : 0 < Q) (ht : 0 < t) (ph : Array Int)
+    (hph : ∀ x ∈ ph.toList, ∃ (m : Nat) (v : Int), v.natAbs ≤ B ∧ x = Spec.centred (Spec.imod ((deltaM Q t m : Int) + v) Q) Q) :
+    (bitCount Q : Int) - (bitCount (t * (B + 1)) : Int) - 1 ≤ (Spec.budget true t Q ph : Int) := HC.fresh_budget_bfv hQ ht ph hph
+
+/-- BGV: every phase coefficient is m_c + t·e_c (mod Q), m_c < t, |e_c| ≤ B ⇒ the same bound -/
+theorem fresh_budget_bgv {Q t B : Nat} (hQ : 0 < Q) (ph : Array Int)
+    (hph : ∀ x ∈ ph.toList, ∃ (m : Nat) (e : Int), m < t ∧ e.natAbs ≤ B ∧ x = Spec.centred (Spec.imod ((m : Int) + t * e) Q) Q) :
+    (bitCount Q : Int) - (bitCount (t * (B + 1)) : Int) - 1 ≤ (Spec.budget false t Q ph : Int) := HC.fresh_budget_bgv hQ ph hph
+
+/-- public-key BFV encryption, hypotheses discharged by `fresh_noise_bound`: ternary u, s and errors bounded by 21 (C16 `cbd_bound`) -/
+theorem fresh_budget_bfv_pk : type_of% @HC.fresh_budget_bfv_pk := @HC.fresh_budget_bfv_pk
+
+/-- the centred representative is a smallest one in absolute value (what makes the measured noise ≤ any noise decomposition) -/
+theorem centred_le (y : Int) {Q : Nat} (hQ : 0 < Q) : (Spec.centred (Spec.imod y Q) Q).natAbs ≤ y.natAbs := HC.c07f_centred_le y hQ
 
 end HC.C07
